@@ -65,7 +65,7 @@ def _power_bases(ctx):
     for key, fi in sorted(prog.functions.items()):
         if fi.module.name != "pylife.materiallaws.rambgood" or fi.parent is not None:
             continue
-        hits = units.dimensionful_power_bases(fi.node, ("strain", "abs_strain", "delta_strain", "plastic_strain", "elastic_strain"))
+        hits = units.dimensionful_power_bases(fi.node, ("K", "E", "stress", "delta_stress", "max_stress"))
         for node, base, expo in hits:
             n += 1
             ctx.violated(fi, node, "%s raises %s - a stress-valued quantity - to the power %s: with K in Pa and a small hardening exponent the "
